@@ -52,6 +52,14 @@ CHECKS = {
             "elements, their values, the is_input flags and the formulas executed must be exactly what 'discard the edited "
             "element's transitive dependents and nothing else' predicts. Edits are aimed at held elements that have dependents.",
             "dependency relation from vf/ref.py + vf/memo.py; recalc-on compares final states only; inputs inside ItemSpaces are not asserted to survive re-creation of the instance"),
+    "C07": ("exploration",
+            "stateful property-based testing (Hypothesis) of parametrised spaces: instance evaluations in all argument spellings, assignments, base edits and handle captures, against the reference interpreter's instance semantics, an exact held-set/execution-log oracle and identity invariants",
+            "Models with parameter formulas (defaults, returned references, base switching, nested parametrised children) are driven "
+            "through histories of instance evaluations in every spelling, assignments inside instances, edits of the base and handle "
+            "captures. Equal bindings must give the same object and one itemspaces entry; instance values and the log of which "
+            "formula ran in which instance must match the reference; the set of held values must be exactly the predicted one "
+            "(isolation); old handles must be deleted or be the registered instance.",
+            "instance semantics of vf/ref.py; exact invalidation after base edits is left to C02/C06 (held set is resynchronised, values still checked)"),
     "C08": ("exploration",
             "property-based testing (Hypothesis) of evaluation/failure/edit histories; preds/succs/precedents and the trace graph compared with edges folded from the reference interpreter's call trees",
             "The fault plans of C05 and the value-edit histories of C06 are replayed; after every step, for every element holding a "
